@@ -498,6 +498,11 @@ snarf_rrule(const char *s, size_t z)
 				rr.count = tmp;
 				break;
 			case KEY_INTER:
+				if (UNLIKELY(tmp < 0 || tmp > 0xffffff00L)) {
+					/* won't fit, and 136 years worth of
+					 * seconds isn't what we're here for */
+					goto bogus;
+				}
 				rr.inter = (unsigned int)tmp;
 				break;
 			}
@@ -621,6 +626,24 @@ snarf_rrule(const char *s, size_t z)
 		default:
 		case KEY_UNK:
 			break;
+		}
+	}
+	if (rr.freq > FREQ_NONE) {
+		/* an interval that spans the 400 years from 1900 on is as
+		 * good as any bigger one, and the fillers' arithmetic
+		 * on days, months and years stays in range */
+		static const unsigned int maxi[] = {
+			[FREQ_YEARLY] = 400U,
+			[FREQ_MONTHLY] = 4800U,
+			[FREQ_WEEKLY] = 20900U,
+			[FREQ_DAILY] = 146100U,
+			[FREQ_HOURLY] = 3506400U,
+			[FREQ_MINUTELY] = 210384000U,
+			[FREQ_SECONDLY] = 0xffffff00U,
+		};
+
+		if (rr.inter > maxi[rr.freq]) {
+			rr.inter = maxi[rr.freq];
 		}
 	}
 	return rr;
